@@ -132,8 +132,10 @@ class QModuleMixin(ABC):
                     self.weight_group_size = group_size
         self.activation_qtype = activations
         self.optimizer = optimizer
-        self.register_buffer("input_scale", torch.ones(()))
-        self.register_buffer("output_scale", torch.ones(()))
+        # Scales must have the same dtype as the module parameters
+        scale_dtype = kwargs.get("dtype")
+        self.register_buffer("input_scale", torch.ones((), dtype=scale_dtype))
+        self.register_buffer("output_scale", torch.ones((), dtype=scale_dtype))
 
     def _save_to_state_dict(self, destination, prefix, keep_vars):
         if self.weight is None:
